@@ -2,5 +2,5 @@
 # Background helper for `vp run --with-repo`: runs the thorough tier of the given properties on snapshots of /verif and /repo.
 export VERIF_DIR=$PWD VERIF_REPO=${VP_RUN_REPO:-/repo}
 for p in "$@"; do
-  echo "##### $p"; ./bin/check $p --tier thorough 2>&1 | grep -v "^  witness" | cut -c1-400 | tail -12; echo "exit=$?"
+  echo "##### $p"; ./bin/check $p --tier thorough --workers 6 2>&1 | grep -v "^  witness" | cut -c1-400 | tail -12; echo "exit=$?"
 done
